@@ -58,6 +58,10 @@ def gen_sel(rng, size, allow_bad=False):
         if rng.random() < 0.2:
             b = None
         s = slice(a, b, step)
+        if rng.random() < 0.3:
+            # Python's rules for negative bounds and for the open ends of a backward slice
+            s = rng.choice([slice(None, None, -1), slice(size - 1, None, -1), slice(None, 0, -1), slice(-2, None), slice(0, -1), slice(-3, -1),
+                            slice(None, None, -2), slice(-1, None, -1)])
         return ('slice', s, list(range(*s.indices(size))))
     vals = sorted(rng.sample(range(size), rng.randint(1, size)))
     if rng.random() < 0.3:
@@ -147,7 +151,7 @@ def run(ctx, build):
                     m = dict(desc, path='2D', lazy=lazy)
                     try:
                         with common.quiet():
-                            r, ok = u.slice(dict(d), ndim_form=False, lazy=lazy)
+                            r, ok = u.slice(d, ndim_form=False, lazy=lazy)
                         if lazy:
                             r = r.compute()
                         r = gen.ids_of(np.asarray(r), lay.dtype)
@@ -190,7 +194,7 @@ def run(ctx, build):
                 m = dict(desc, path='ND', lazy=lazy, sorted_view=sorted_view)
                 try:
                     with common.quiet():
-                        r, ok = u.slice(dict(d), ndim_form=True, lazy=lazy)
+                        r, ok = u.slice(d, ndim_form=True, lazy=lazy)
                     if lazy:
                         r = r.compute()
                     r = gen.ids_of(np.asarray(r), lay.dtype)
